@@ -1,10 +1,10 @@
-(* JsLex/SeqNext.v — token sequences: tokens of the classes proved so far (punctuators and operators,
-   identifiers / keywords / private identifiers incl. Unicode letters and \u escapes, whitespace incl.
-   non-ASCII spaces, line terminators incl. U+2028/U+2029), each followed by a byte that cannot extend
-   it, are returned one by one with exactly their types and texts. *)
+(* JsLex/SeqNext.v — token sequences: every token class of the ECMAScript lexical grammar (punctuators,
+   numeric literals, strings, identifiers and keywords, templates with nested substitutions, all comment
+   forms, whitespace, line terminators, regular expression literals re-read by RegExp()), each followed
+   by something that cannot extend it, is returned with exactly its type and text. *)
 From Verif Require Import Common.Base Common.Tactics Common.Lx Gen.Tables
   JsLex.Model JsLex.Lemmas JsLex.Total JsLex.Next JsLex.Canon JsLex.Comment JsLex.Relex JsLex.Proofs
-  JsLex.RelexNext JsLex.Exchange JsLex.Exchange2 JsLex.NumExchange.
+  JsLex.RelexNext JsLex.Exchange JsLex.Exchange2 JsLex.Exchange3 JsLex.NumExchange JsLex.Regexp JsLex.SeqRegex.
 From Coq Require Import ZifyBool.
 
 Inductive tclass := KPunct | KIdent | KWs | KLt | KString | KComment | KTemplate | KNum.
@@ -25,32 +25,47 @@ Definition class_of (ty : Z) : option tclass :=
 Definition punct1 (t : Z) : bool :=
   (t =? 44) || (t =? 59) || (t =? 40) || (t =? 41) || (t =? 123) || (t =? 125) || (t =? 58) || (t =? 93) || (t =? 91).
 
-(* the byte that follows the token T must not be able to extend it *)
-Definition stop_for (cls : tclass) (T : list Z) (c : Z) : Prop :=
+(* what follows the token T (R' = the rest of the input, terminator included) must not be able to extend it;
+   for all classes but the single-line comments only the first byte c of R' matters *)
+Definition stop_for (cls : tclass) (T : list Z) (R' : list Z) : Prop :=
+  let c := hd 0 R' in
   match cls with
-  | KPunct => match T with [t] => if punct1 t then True else op_stop c | _ => op_stop c end
+  | KPunct => match T with                       (* "/" "/" would be a comment *)
+              | [t] => if punct1 t then True else op_stop c /\ (t = 47 -> c <> 47)
+              | _ => op_stop c
+              end
   | KIdent => tab_cont c = false /\ c < 192 /\ c <> 92
   | KWs => c <> 32 /\ c <> 9 /\ c <> 11 /\ c <> 12 /\ c < 192
   | KLt => c <> 10 /\ c <> 13 /\ c <> 226
   | KString | KTemplate => True                  (* closed tokens: any follower *)
-  | KComment => firstz 2 T = [47; 42] \/ c = 10 \/ c = 13   (* "/*...*/": any follower; "//...": LF or CR *)
+  | KComment => firstz 2 T = [47; 42] \/ lc_stop R'   (* "/*...*/": any follower; "//", "<!--", "-->": a line
+                                                          terminator (LF, CR, U+2028, U+2029) or the end of input *)
   | KNum => tab_cont c = false /\ c <> 46        (* no identifier character (digit, letter, '_', '$'), no '.' *)
   end.
 
-Lemma stop_punct_op T R a c : pkl (T ++ R) 0 = Ok a -> punct1 a = false -> stop_for KPunct T c -> op_stop c.
+Lemma stop_punct_op T R a R' : pkl (T ++ R) 0 = Ok a -> punct1 a = false -> stop_for KPunct T R' -> op_stop (hd 0 R').
 Proof.
-  intros Ha Hp H. cbn [stop_for] in H. destruct T as [|t [|t' T']]; try exact H.
-  cbn [app] in Ha. rewrite pkl_cons_0 in Ha. assert (t = a) by congruence. subst t. rewrite Hp in H. exact H.
+  intros Ha Hp H. cbn [stop_for] in H. cbv zeta in H. destruct T as [|t [|t' T']]; try exact H.
+  cbn [app] in Ha. rewrite pkl_cons_0 in Ha. assert (t = a) by congruence. subst t. rewrite Hp in H. apply H.
 Qed.
+
+Lemma stop_punct_slash R' : stop_for KPunct [47] R' -> hd 0 R' <> 47.
+Proof. intros H. cbn [stop_for] in H. cbv zeta in H. change (punct1 47) with false in H. apply H. reflexivity. Qed.
 
 Definition is_num (cls : tclass) : bool := match cls with KNum => true | _ => false end.
 
-(* restriction on the text within a class: only multi-line comments among the comment forms *)
-Definition text_ok (cls : tclass) (T : list Z) : Prop :=
+(* the comment forms; "-->" is a comment only at the start of a line (pl: prevLineTerminator) *)
+Definition text_ok (cls : tclass) (pl : bool) (T : list Z) : Prop :=
   match cls with
-  | KComment => firstz 2 T = [47; 42] \/ firstz 2 T = [47; 47] \/ firstz 4 T = [60; 33; 45; 45]
+  | KComment => firstz 2 T = [47; 42] \/ firstz 2 T = [47; 47] \/ firstz 4 T = [60; 33; 45; 45] \/
+                (firstz 3 T = [45; 45; 62] /\ pl = true)
   | _ => True
   end.
+
+(* prevLineTerminator after a token: kept by whitespace, set by line terminators and by multi-line
+   comments that contain one, cleared by everything else *)
+Definition plt_after (ty : Z) (pl : bool) : bool :=
+  if ty =? WhitespaceToken then pl else (ty =? LineTerminatorToken) || (ty =? CommentLineTerminatorToken).
 
 Lemma emit_at s1 z T R' ty : lx_wf z -> lstart z = lpos z -> suffix z = T ++ R' -> R' <> [] ->
   emit s1 (mv z (len T)) ty = Ok ((ty, Some T), set_cur s1 (skip (mv z (len T)))) /\
@@ -68,8 +83,8 @@ Qed.
 
 (* the states between the tokens of a sequence: nothing pending, no open template, the previous token
    was not a numeric literal *)
-Definition seq_inv (pn : bool) (lev : Z) (tl : list Z) (s : jst) : Prop :=
-  js_wf s /\ lstart (jcur s) = lpos (jcur s) /\ jlevel s = lev /\ jtl s = tl /\ jpnl s = pn.
+Definition seq_inv (pn pl : bool) (lev : Z) (tl : list Z) (s : jst) : Prop :=
+  js_wf s /\ lstart (jcur s) = lpos (jcur s) /\ jlevel s = lev /\ jtl s = tl /\ jpnl s = pn /\ jplt s = pl.
 
 (* the brace level / open-template bookkeeping, as a specification of what each token type does;
    None: the token type is impossible in that state ("}" that must resume a template, or a template
@@ -106,6 +121,17 @@ Ltac step_simpl Hstep :=
   end;
   injection Hstep as <- <-.
 
+Ltac plt_solve :=
+  unfold plt_after, OpenParenToken, OpenBraceToken, CloseParenToken, CloseBraceToken, TemplateStartToken,
+    TemplateMiddleToken, TemplateEndToken, WhitespaceToken, LineTerminatorToken, StringToken, CommentToken,
+    CommentLineTerminatorToken, TemplateToken, PrivateIdentifierToken, IdentifierToken, EllipsisToken, DotToken,
+    CommaToken, SemicolonToken, ColonToken, OpenBracketToken, CloseBracketToken, ErrorToken;
+  repeat match goal with
+  | |- context [if ?b then _ else _] =>
+      first [replace b with false by lia | replace b with true by lia]
+  end;
+  first [reflexivity | lia].
+
 Ltac open_ext E R' Hsuf :=
   unfold next; cbv zeta; cbn [jcur jerr jplt jpnl jlevel jtl]; rewrite Hsuf; xfer2 E R'; use_conds.
 
@@ -116,8 +142,9 @@ Ltac fin_ext_gen z T R' Hw Hst Hsuf HR' :=
       let He := fresh "He" in let Hw' := fresh "Hw'" in let Hs' := fresh "Hs'" in
       destruct (emit_at s1 z T R' ty Hw Hst Hsuf HR') as (He & Hw' & Hs'); rewrite He;
       eexists; split; [reflexivity|]; split; [|exact Hs'];
-      unfold seq_inv, js_wf; cbn [jcur jtl jpnl jlevel set_cur set_plt set_level set_err set_pnl set_tl is_num];
-      split; [exact Hw'|]; split; [reflexivity|]; split; [reflexivity|]; split; reflexivity
+      unfold seq_inv, js_wf; cbn [jcur jtl jpnl jlevel jplt set_cur set_plt set_level set_err set_pnl set_tl is_num];
+      split; [exact Hw'|]; split; [reflexivity|]; split; [reflexivity|]; split; [reflexivity|]; split; [reflexivity|];
+      plt_solve
   end.
 
 Ltac fin_ext z T R' Hw Hst Hsuf HR' Hstep := try step_simpl Hstep; fin_ext_gen z T R' Hw Hst Hsuf HR'.
@@ -132,6 +159,24 @@ Qed.
 
 Lemma hd_cons_nonempty R' : R' <> [] -> exists c R'', R' = c :: R'' /\ hd 0 R' = c.
 Proof. destruct R' as [|c R'']; [congruence|]. eauto. Qed.
+
+Lemma head_of_pkl T R a : 0 < len T -> pkl (T ++ R) 0 = Ok a -> exists T', T = a :: T'.
+Proof.
+  destruct T as [|t0 T']; [change (len (@nil Z)) with 0; lia|]. intros _ H. cbn [app] in H. rewrite pkl_cons_0 in H.
+  exists T'. congruence.
+Qed.
+
+(* consumeCommentToken sets prevLineTerminator exactly for a CommentLineTerminatorToken *)
+Lemma comment_sl l n t e sl : comment l = Ok (n, t, e, sl) -> t <> ErrorToken ->
+  sl = (t =? CommentLineTerminatorToken).
+Proof.
+  intros H Hne. unfold comment in H. crunch H.
+  - assert (t = CommentToken /\ sl = false) as (-> & ->) by (split; congruence). reflexivity.
+  - assert (t = (if b then CommentLineTerminatorToken else CommentToken) /\ sl = b) as (-> & ->) by (split; congruence).
+    destruct b; reflexivity.
+  - exfalso. apply Hne. congruence.
+  - exfalso. apply Hne. congruence.
+Qed.
 
 Section SeqNext.
 Variables (id_start id_cont is_zs : Z -> bool).
@@ -173,14 +218,17 @@ Proof.
   exfalso. assert (n = 0) by congruence. lia.
 Qed.
 
-Lemma next_extend s pn lev tl lev' tl' ty T R' cls :
-  relexes id_start id_cont is_zs ty T -> class_of ty = Some cls -> text_ok cls T -> no_trunc T = true ->
-  seq_inv pn lev tl s -> step_state ty lev tl = Some (lev', tl') ->
-  (pn = true -> cls <> KIdent) -> suffix (jcur s) = T ++ R' -> R' <> [] -> stop_for cls T (hd 0 R') ->
-  exists s', next id_start id_cont is_zs s = Ok ((ty, Some T), s') /\ seq_inv (is_num cls) lev' tl' s' /\ suffix (jcur s') = R'.
+Lemma next_extend s pn pl lev tl lev' tl' ty T R' cls :
+  relexes id_start id_cont is_zs ty T -> class_of ty = Some cls -> text_ok cls pl T -> no_trunc T = true ->
+  seq_inv pn pl lev tl s -> step_state ty lev tl = Some (lev', tl') ->
+  (pn = true -> cls <> KIdent) -> suffix (jcur s) = T ++ R' -> wfl R' -> stop_for cls T R' ->
+  exists s', next id_start id_cont is_zs s = Ok ((ty, Some T), s') /\
+    seq_inv (is_num cls) (plt_after ty pl) lev' tl' s' /\ suffix (jcur s') = R'.
 Proof.
-  intros (s2 & Hn & Hp & _) Hcls Htxt Hnt (Hw & Hst & Hlev & Htl & Hpnl) Hstep Hpn Hsuf HR' Hstop.
-  destruct s as [z e0 plt0 pnl0 lev0 tl0]. unfold js_wf in Hw. cbn [jcur jtl jpnl jlevel] in *. subst tl0 pnl0 lev0.
+  intros (s2 & Hn & Hp & _) Hcls Htxt Hnt (Hw & Hst & Hlev & Htl & Hpnl & Hplt) Hstep Hpn Hsuf HwR' Hstop.
+  assert (HR' : R' <> []) by (apply wfl_nonnil; assumption).
+  destruct s as [z e0 plt0 pnl0 lev0 tl0]. unfold js_wf in Hw. cbn [jcur jtl jpnl jlevel jplt] in *. subst tl0 pnl0 lev0 pl.
+  cbv zeta in Hstop.
   assert (HT : 0 < len T).
   { destruct T; [|rewrite len_cons; pose proof (len_nonneg T); lia]. exfalso. vm_compute in Hn. discriminate. }
   assert (H0R : [0] <> []) by discriminate.
@@ -208,43 +256,40 @@ Proof.
            unfold ErrorToken in Hnty, Hne;
            fin_ext z T (c :: R'') Hw Hst Hsuf HR' Hstep
        end);
-  (* HTML-like comments "<!--..." in front of LF / CR ("-->..." is not covered) *)
+  (* HTML-like comments "<!--..." and, at the start of a line, "-->..." *)
   try (match goal with
-       | E0 : html_comment _ (T ++ [0]) = Ok ?n , Hty0 : ty = CommentToken |- _ =>
+       | E0 : html_comment true (T ++ [0]) = Ok ?n , Hty0 : ty = CommentToken |- _ =>
            assert (n = len T) by lia; subst n ty; injection Hcls as <-; cbn [text_ok stop_for] in Htxt, Hstop;
-           assert (Ha : firstz 1 T = [a])
-             by (destruct T as [|t0 T']; [discriminate|]; cbn [app] in E; rewrite pkl_cons_0 in E;
-                 rewrite firstz_cons by lia; rewrite firstz_le0 by lia; congruence);
-           assert (Htx4 : firstz 4 T = [60; 33; 45; 45])
-             by (destruct Htxt as [Htxt|[Htxt|Htxt]]; [exfalso|exfalso|exact Htxt];
-                 (destruct T as [|t0 T']; [discriminate|]; rewrite firstz_cons in Htxt, Ha by lia;
-                  assert (t0 = a) by congruence; assert (t0 = 47) by congruence; lia));
-           destruct (hd_cons_nonempty R' HR') as (c & R'' & HRc & Hc); rewrite Hc in Hstop; subst R';
-           assert (Hlf : c = 10 \/ c = 13)
+           destruct (head_of_pkl T [0] a HT E) as (T' & HTa);
+           assert (Hlc : lc_stop R')
              by (destruct Hstop as [Hstop|Hstop]; [exfalso|exact Hstop];
-                 destruct T as [|t0 [|t1 T']]; try discriminate;
-                 rewrite !firstz_cons in Hstop, Htx4 by lia; assert (t0 = 47) by congruence; assert (t0 = 60) by congruence; lia);
-           pose proof (html_comment_exchange_open T [0] c R'' _ plt0 _ H0R Hnt Hlf E0 eq_refl Htx4) as E0';
-           open_ext E (c :: R'') Hsuf; rewrite E0'; cbn [rbind]; use_conds; fin_ext z T (c :: R'') Hw Hst Hsuf HR' Hstep
+                 rewrite HTa in Hstop; destruct T' as [|t1 T'']; [discriminate|];
+                 rewrite !firstz_cons in Hstop by lia; assert (a = 47) by congruence; lia);
+           assert (Hform : firstz 4 T = [60; 33; 45; 45] \/ (firstz 3 T = [45; 45; 62] /\ plt0 = true))
+             by (destruct Htxt as [Htxt|[Htxt|[Htxt|Htxt]]]; [exfalso|exfalso|left; exact Htxt|right; exact Htxt];
+                 rewrite HTa in Htxt; rewrite firstz_cons in Htxt by lia; assert (a = 47) by congruence; lia);
+           pose proof (html_comment_exchange_gen T [0] R' true plt0 _ HwR' Hlc H0R Hnt E0 eq_refl Hform) as E0';
+           open_ext E R' Hsuf; rewrite E0'; cbn [rbind]; use_conds; fin_ext z T R' Hw Hst Hsuf HR' Hstep
        end);
-  (* comments: "/*...*/" in front of anything, "//..." in front of LF / CR *)
+  (* comments: "/*...*/" in front of anything, "//..." in front of a line terminator or the end of input *)
   try (match goal with
        | E0 : comment (T ++ [0]) = Ok (?n, ?t, ?e, ?sl), Hty0 : ty = ?t |- _ =>
            assert (n = len T) by lia; subst n ty;
            pose proof (comment_ty _ _ _ _ _ E0) as Hcty;
            assert (Hne : t <> ErrorToken) by (intros ->; discriminate);
+           pose proof (comment_sl _ _ _ _ _ E0 Hne) as Hsl;
            assert (cls = KComment)
              by (destruct Hcty as [->|[->| ->]]; [congruence|injection Hcls as <-; reflexivity|injection Hcls as <-; reflexivity]);
            subst cls; cbn [text_ok stop_for] in Htxt, Hstop;
+           destruct (head_of_pkl T [0] a HT E) as (T' & HTa);
            assert (E0' : comment (T ++ R') = Ok (len T, t, e, sl))
-             by (destruct Htxt as [Htxt|[Htxt|Htxt]];
+             by (destruct Htxt as [Htxt|[Htxt|[Htxt|(Htxt & _)]]];
                  [ apply (comment_exchange T [0] R' _ _ _ _ H0R HR' E0 eq_refl Hne Htxt)
-                 | | exfalso; destruct T as [|t0 T']; [discriminate|]; cbn [app] in E; rewrite pkl_cons_0 in E;
-                     rewrite firstz_cons in Htxt by lia; assert (a = 60) by congruence; lia ];
-                 destruct (hd_cons_nonempty R' HR') as (c & R'' & HRc & Hc); rewrite Hc in Hstop; subst R';
-                   destruct Hstop as [Hstop|Hstop]; [rewrite Htxt in Hstop; discriminate|];
-                   apply (comment_exchange_line T [0] c R'' _ _ _ _ H0R Hnt Hstop E0 eq_refl Htxt));
-           unfold ErrorToken, CommentToken, CommentLineTerminatorToken in Hcty, Hne;
+                 | destruct Hstop as [Hstop|Hstop]; [rewrite Htxt in Hstop; discriminate|];
+                   apply (comment_exchange_line_gen T [0] R' _ _ _ _ HwR' Hstop H0R Hnt E0 eq_refl Htxt)
+                 | exfalso; rewrite HTa in Htxt; rewrite firstz_cons in Htxt by lia; assert (a = 60) by congruence; lia
+                 | exfalso; rewrite HTa in Htxt; rewrite firstz_cons in Htxt by lia; assert (a = 45) by congruence; lia ]);
+           unfold ErrorToken, CommentToken, CommentLineTerminatorToken in Hcty, Hne, Hsl;
            open_ext E R' Hsuf; rewrite E0'; cbn [rbind]; use_conds; destruct sl; fin_ext z T R' Hw Hst Hsuf HR' Hstep
        end);
   (* strings *)
@@ -378,14 +423,18 @@ Proof.
     assert (cls = KPunct).
     { unfold class_of, WhitespaceToken, LineTerminatorToken, PrivateIdentifierToken, StringToken, CommentToken, CommentLineTerminatorToken, TemplateToken, TemplateStartToken in Hcls.
       repeat match type of Hcls with context [if ?b then _ else _] => destruct b eqn:? end; try lia; congruence. }
-    subst cls. apply (stop_punct_op T [0] a _ E ltac:(unfold punct1, is_op_start in *; lia)) in Hstop.
+    subst cls. pose proof Hstop as Hstop0.
+    apply (stop_punct_op T [0] a _ E ltac:(unfold punct1, is_op_start in *; lia)) in Hstop.
     destruct (hd_cons_nonempty R' HR') as (c & R'' & HRc & Hc). rewrite Hc in *. subst R'.
     pose proof (op_exchange T [0] c R'' z4 H0R E1 Hstop) as E1'.
     (* the comment scanner declines in front of c as well *)
     assert (E0' : comment (T ++ c :: R'') = Ok (0, ErrorToken, ENone, false)).
     { unfold comment. unfold op_stop in Hstop.
       destruct T as [|t0 [|t1 T]]; [change (len (@nil Z)) with 0 in HT; lia| |]; cbn [app] in *.
-      - rewrite pkl_1. cbn [rbind]. replace (c =? 47) with false by lia. replace (c =? 42) with false by lia. reflexivity.
+      - assert (Hc47 : c <> 47).
+        { rewrite pkl_cons_0 in E. assert (Ht0 : t0 = 47) by (assert (t0 = a) by congruence; lia).
+          rewrite Ht0 in Hstop0. apply stop_punct_slash in Hstop0. exact Hstop0. }
+        rewrite pkl_1. cbn [rbind]. replace (c =? 47) with false by lia. replace (c =? 42) with false by lia. reflexivity.
       - rewrite pkl_1 in Ec1 |- *. cbn [rbind]. assert (t1 = c1) by congruence. subst t1. rewrite E47, E42. reflexivity. }
     open_ext E (c :: R'') Hsuf. rewrite E0'. cbn [rbind]. cbn [negb Z.eqb ErrorToken ENone orb]. cbv iota.
     unfold op_or_err. rewrite mv_0, Hsuf, E1'. cbn [rbind]. use_conds. fin_ext z T (c :: R'') Hw Hst Hsuf HR' Hstep.
@@ -550,16 +599,16 @@ Proof.
 Qed.
 
 (* "}body${" / "}body`" in a state where a template is waiting at this brace level *)
-Lemma next_cont s pn lev tl lev' tl' ty ty0 body R' :
+Lemma next_cont s pn pl lev tl lev' tl' ty ty0 body R' :
   (ty = TemplateMiddleToken /\ ty0 = TemplateStartToken) \/ (ty = TemplateEndToken /\ ty0 = TemplateToken) ->
   relexes id_start id_cont is_zs ty0 (96 :: body) ->
-  seq_inv pn lev tl s -> step_state ty lev tl = Some (lev', tl') ->
+  seq_inv pn pl lev tl s -> step_state ty lev tl = Some (lev', tl') ->
   suffix (jcur s) = (125 :: body) ++ R' -> R' <> [] ->
   exists s', next id_start id_cont is_zs s = Ok ((ty, Some (125 :: body)), s') /\
-    seq_inv false lev' tl' s' /\ suffix (jcur s') = R'.
+    seq_inv false false lev' tl' s' /\ suffix (jcur s') = R'.
 Proof.
-  intros Hk Hre (Hw & Hst & Hlev & Htl & Hpnl) Hstep Hsuf HR'.
-  destruct s as [z e0 plt0 pnl0 lev0 tl0]. unfold js_wf in Hw. cbn [jcur jtl jpnl jlevel] in *. subst tl0 pnl0 lev0.
+  intros Hk Hre (Hw & Hst & Hlev & Htl & Hpnl & Hplt) Hstep Hsuf HR'.
+  destruct s as [z e0 plt0 pnl0 lev0 tl0]. unfold js_wf in Hw. cbn [jcur jtl jpnl jlevel jplt] in *. subst tl0 pnl0 lev0 pl.
   assert (Hty0 : ty0 = TemplateStartToken \/ ty0 = TemplateToken) by (destruct Hk as [(_ & ->)|(_ & ->)]; auto).
   pose proof (tpl_of_relex ty0 body Hre Hty0) as Htp.
   assert (H0R : [0] <> []) by discriminate.
@@ -591,71 +640,157 @@ Proof.
       destruct (emit_at s1 z (125 :: body) R' t Hw Hst Hsuf' HR') as (He & Hw' & Hs') end.
     rewrite He. eexists. split; [reflexivity|]. split; [|exact Hs'].
     unfold step_state in Hstep. cbn in Hstep. rewrite Htop in Hstep. injection Hstep as <- <-.
-    unfold seq_inv, js_wf. cbn [jcur jtl jpnl jlevel set_cur set_level]. split; [exact Hw'|]. repeat split; reflexivity.
+    unfold seq_inv, js_wf. cbn [jcur jtl jpnl jplt jlevel set_cur set_level]. split; [exact Hw'|]. repeat split; reflexivity.
   - change (TemplateToken =? TemplateStartToken) with false. cbv iota. change (0 =? 0) with true. cbv iota.
     cbn [jtl set_level]. rewrite Hlen.
     match goal with |- context [emit ?s1 (mv z _) ?t] =>
       destruct (emit_at s1 z (125 :: body) R' t Hw Hst Hsuf' HR') as (He & Hw' & Hs') end.
     rewrite He. eexists. split; [reflexivity|]. split; [|exact Hs'].
     unfold step_state in Hstep. cbn in Hstep. rewrite Htop in Hstep. injection Hstep as <- <-.
-    unfold seq_inv, js_wf. cbn [jcur jtl jpnl jlevel set_cur set_level set_tl]. split; [exact Hw'|]. repeat split; reflexivity.
+    unfold seq_inv, js_wf. cbn [jcur jtl jpnl jplt jlevel set_cur set_level set_tl]. split; [exact Hw'|]. repeat split; reflexivity.
 Qed.
 
-(* a token sequence: types and texts *)
-Definition tokspec := (Z * list Z)%type.
-Definition texts (ts : list tokspec) : list Z := concat (map snd ts).
-(* the byte that follows a token: the first byte of the rest of the sequence, or the terminator *)
-Definition follower (rest : list tokspec) : Z := hd 0 (texts rest ++ [0]).
+(* --- regular expression literals ------------------------------------------------------------------- *)
+(* the token Next returns on the '/' that opens the literal *)
+Definition slash_tok (body : list Z) : tok :=
+  if hd 0 body =? 61 then (DivEqToken, Some [47; 61]) else (DivToken, Some [47]).
 
-(* seq_ok pn lev tl ts: ts is a token sequence of the covered classes that can be lexed from a state
-   with brace level lev and open templates tl; pn says that the token before ts is a numeric literal
-   (then ts must not start with an identifier: "1a" is a lexical error) *)
-Inductive seq_ok : bool -> Z -> list Z -> list tokspec -> Prop :=
-| sq_nil pn lev tl : seq_ok pn lev tl []
-| sq_cons pn lev tl lev' tl' ty T rest cls :
-    relexes id_start id_cont is_zs ty T -> class_of ty = Some cls -> text_ok cls T -> no_trunc T = true ->
+(* "/body/flags" followed by a byte that is not a flag character: Next returns '/' (or '/=' when the body
+   starts with '='), RegExp() re-reads the whole literal; afterwards the lexer stands behind the flags,
+   brace level and open templates are unchanged *)
+Lemma next_regex s pn pl lev tl body flags R' :
+  re_body false body -> body <> [] -> hd 0 body <> 42 ->
+  Forall (fun c => tab_cont c = true) flags -> tab_cont (hd 0 R') = false -> hd 0 R' < 192 -> wfl R' ->
+  seq_inv pn pl lev tl s -> suffix (jcur s) = re_lit body flags ++ R' ->
+  exists s1 s2, next id_start id_cont is_zs s = Ok (slash_tok body, s1) /\
+    regexp id_cont s1 = Ok ((RegExpToken, Some (re_lit body flags)), s2) /\
+    seq_inv false false lev tl s2 /\ suffix (jcur s2) = R'.
+Proof.
+  intros Hb Hne H42 Hf Hr0 Hr1 HwR' (Hw & Hst & Hlev & Htl & Hpnl & Hplt) Hsuf.
+  destruct (hd_cons_nonempty R' (wfl_nonnil _ HwR')) as (r0 & rest0 & -> & Hhd). cbn [hd] in Hr0, Hr1.
+  set (pre := firstz (lpos (jcur s)) (lbuf (jcur s))).
+  assert (Hbuf : lbuf (jcur s) = pre ++ re_lit body flags ++ r0 :: rest0).
+  { rewrite <- Hsuf. unfold pre, suffix. symmetry. apply firstz_skipz. }
+  assert (Hpre : len pre = lpos (jcur s)).
+  { unfold pre. apply len_firstz. destruct Hw as (_ & H1 & H2). unfold lx_len in H2. lia. }
+  pose proof (re_body_head _ Hb) as H47.
+  destruct body as [|b0 body']; [congruence|]. cbn [hd] in *.
+  assert (HT : exists t0 T, body' ++ 47 :: flags ++ r0 :: rest0 = t0 :: T).
+  { destruct body' as [|x body'']; cbn [app]; eauto. }
+  destruct HT as (t0 & T & HT).
+  assert (Hbuf' : lbuf (jcur s) = pre ++ 47 :: b0 :: t0 :: T).
+  { rewrite Hbuf. unfold re_lit. cbn [app]. rewrite <- app_assoc. cbn [app]. rewrite HT. reflexivity. }
+  destruct (next_slash id_start id_cont is_zs pre b0 t0 T s H42 H47 Hbuf' (eq_sym Hpre) ltac:(congruence))
+    as (t1 & s1 & k & Hn & Hb1 & Hp1 & Hk).
+  assert (Hk' : k = 1 \/ (k = 2 /\ exists b', b0 :: body' = 61 :: b')).
+  { destruct Hk as [(-> & _ & _)|(-> & _ & ->)]; [left; reflexivity|right; split; [reflexivity|eauto]]. }
+  destruct (regexp_at id_cont pre (b0 :: body') flags r0 rest0 s1 k Hb Hf Hr0 Hr1 HwR' ltac:(congruence) Hp1 Hk')
+    as (s2 & Hre & Hp2 & Hs2 & Hb2).
+  assert (Ht1 : t1 = slash_tok (b0 :: body')).
+  { unfold slash_tok. cbn [hd]. destruct Hk as [(_ & -> & Hb0)|(_ & -> & Hb0)].
+    - replace (b0 =? 61) with false by lia. reflexivity.
+    - replace (b0 =? 61) with true by lia. reflexivity. }
+  assert (Hdiv : fst t1 = DivToken \/ fst t1 = DivEqToken)
+    by (destruct Hk as [(_ & -> & _)|(_ & -> & _)]; cbn [fst]; auto).
+  destruct t1 as (ty1 & od1). cbn [fst] in Hdiv.
+  destruct (next_flags_div id_start id_cont is_zs s ty1 od1 s1 Hn Hdiv) as (Hl1 & Htl1 & Hpn1 & Hpl1).
+  destruct (regexp_flags id_cont s1 _ s2 Hre) as (Hl2 & Htl2 & Hpn2 & Hpl2).
+  exists s1, s2. split; [rewrite <- Ht1; exact Hn|]. split; [exact Hre|].
+  assert (Hb2' : lbuf (jcur s2) = pre ++ re_lit (b0 :: body') flags ++ r0 :: rest0) by congruence.
+  assert (Hlen2 : len (lbuf (jcur s2)) = len pre + len (re_lit (b0 :: body') flags) + len (r0 :: rest0))
+    by (rewrite Hb2', !len_app; lia).
+  pose proof (len_nonneg pre). pose proof (len_nonneg (re_lit (b0 :: body') flags)).
+  pose proof (len_nonneg rest0). rewrite len_cons in Hlen2.
+  split.
+  - unfold seq_inv, js_wf. split; [|repeat split; congruence].
+    unfold lx_wf, lx_len. split; [|lia].
+    destruct Hw as ((d & Hd) & _). exists d. congruence.
+  - unfold suffix. rewrite Hp2, Hb2', app_assoc, <- len_app. apply skipz_app_exact.
+Qed.
+
+(* --- sequences -------------------------------------------------------------------------------------- *)
+(* an item of a sequence: a token (type and text) or a regular expression literal /body/flags, for which
+   the parser calls Next (giving '/' or '/=') and then RegExp *)
+Inductive item := ITok (ty : Z) (T : list Z) | IRegex (body flags : list Z).
+Definition item_text (it : item) : list Z := match it with ITok _ T => T | IRegex b f => re_lit b f end.
+Definition item_ops (it : item) : list jop := match it with ITok _ _ => [ONext] | IRegex _ _ => [ONext; ORegExp] end.
+Definition item_toks (it : item) : list tok :=
+  match it with
+  | ITok ty T => [(ty, Some T)]
+  | IRegex b f => [slash_tok b; (RegExpToken, Some (re_lit b f))]
+  end.
+Definition texts (its : list item) : list Z := concat (map item_text its).
+Definition ops_of (its : list item) : list jop := concat (map item_ops its).
+Definition toks_of (its : list item) : list tok := concat (map item_toks its).
+(* what follows an item: the texts of the rest of the sequence, then the terminator *)
+Definition after (rest : list item) : list Z := texts rest ++ [0].
+
+(* seq_ok pn pl lev tl its: its can be lexed from a state with brace level lev and open templates tl;
+   pn says that the token before its is a numeric literal (then its must not start with an identifier:
+   "1a" is a lexical error), pl that its starts a line (only then "-->" opens a comment) *)
+Inductive seq_ok : bool -> bool -> Z -> list Z -> list item -> Prop :=
+| sq_nil pn pl lev tl : seq_ok pn pl lev tl []
+| sq_cons pn pl lev tl lev' tl' ty T rest cls :
+    relexes id_start id_cont is_zs ty T -> class_of ty = Some cls -> text_ok cls pl T -> no_trunc T = true ->
     (pn = true -> cls <> KIdent) -> step_state ty lev tl = Some (lev', tl') ->
-    stop_for cls T (follower rest) -> seq_ok (is_num cls) lev' tl' rest -> seq_ok pn lev tl ((ty, T) :: rest)
-| sq_cont pn lev tl lev' tl' ty ty0 body rest :
+    stop_for cls T (after rest) -> seq_ok (is_num cls) (plt_after ty pl) lev' tl' rest ->
+    seq_ok pn pl lev tl (ITok ty T :: rest)
+| sq_cont pn pl lev tl lev' tl' ty ty0 body rest :
     (ty = TemplateMiddleToken /\ ty0 = TemplateStartToken) \/ (ty = TemplateEndToken /\ ty0 = TemplateToken) ->
     relexes id_start id_cont is_zs ty0 (96 :: body) -> step_state ty lev tl = Some (lev', tl') ->
-    seq_ok false lev' tl' rest -> seq_ok pn lev tl ((ty, 125 :: body) :: rest).
+    seq_ok false false lev' tl' rest -> seq_ok pn pl lev tl (ITok ty (125 :: body) :: rest)
+| sq_regex pn pl lev tl body flags rest :
+    re_body false body -> body <> [] -> hd 0 body <> 42 -> Forall (fun c => tab_cont c = true) flags ->
+    tab_cont (hd 0 (after rest)) = false -> hd 0 (after rest) < 192 ->
+    seq_ok false false lev tl rest -> seq_ok pn pl lev tl (IRegex body flags :: rest).
 
-Lemma seq_run pn lev tl ts : seq_ok pn lev tl ts -> forall s, seq_inv pn lev tl s -> suffix (jcur s) = texts ts ++ [0] ->
-  exists s' pn' lev' tl', next_n id_start id_cont is_zs (length ts) s = Ok (map (fun t => (fst t, Some (snd t))) ts, s') /\
-    seq_inv pn' lev' tl' s' /\ suffix (jcur s') = [0].
+Lemma after_wfl rest : wfl (after rest).
+Proof. exists (texts rest). reflexivity. Qed.
+
+Lemma seq_run pn pl lev tl its : seq_ok pn pl lev tl its ->
+  forall s, seq_inv pn pl lev tl s -> suffix (jcur s) = after its ->
+  exists s' pn' pl' lev' tl', jrun id_start id_cont is_zs (ops_of its) s = Ok (toks_of its, s') /\
+    seq_inv pn' pl' lev' tl' s' /\ suffix (jcur s') = [0].
 Proof.
-  induction 1 as [pn lev tl|pn lev tl lev' tl' ty T rest cls Hre Hcls Htxt Hnt Hpn Hstep Hstop Hrest IH
-                 |pn lev tl lev' tl' ty ty0 body rest Hk Hre Hstep Hrest IH]; intros s Hinv Hsuf.
-  - exists s, pn, lev, tl. cbn [length next_n map]. auto.
-  - cbn [length next_n map fst snd].
-    assert (Hsuf' : suffix (jcur s) = T ++ (texts rest ++ [0])).
-    { rewrite Hsuf. unfold texts. cbn [map concat snd]. rewrite <- app_assoc. reflexivity. }
-    assert (HR' : texts rest ++ [0] <> []) by (destruct (texts rest); discriminate).
-    destruct (next_extend s pn lev tl lev' tl' ty T (texts rest ++ [0]) cls Hre Hcls Htxt Hnt Hinv Hstep Hpn Hsuf' HR' Hstop)
-      as (s1 & Hn & Hinv1 & Hsuf1).
-    rewrite Hn. cbn [rbind].
-    destruct (IH s1 Hinv1 Hsuf1) as (s2 & pn2 & lev2 & tl2 & Hn2 & Hinv2 & Hsuf2). rewrite Hn2. cbn [rbind].
-    exists s2, pn2, lev2, tl2. auto.
-  - cbn [length next_n map fst snd].
-    assert (Hsuf' : suffix (jcur s) = (125 :: body) ++ (texts rest ++ [0])).
-    { rewrite Hsuf. unfold texts. cbn [map concat snd]. rewrite <- app_assoc. reflexivity. }
-    assert (HR' : texts rest ++ [0] <> []) by (destruct (texts rest); discriminate).
-    destruct (next_cont s pn lev tl lev' tl' ty ty0 body (texts rest ++ [0]) Hk Hre Hinv Hstep Hsuf' HR')
-      as (s1 & Hn & Hinv1 & Hsuf1).
-    rewrite Hn. cbn [rbind].
-    destruct (IH s1 Hinv1 Hsuf1) as (s2 & pn2 & lev2 & tl2 & Hn2 & Hinv2 & Hsuf2). rewrite Hn2. cbn [rbind].
-    exists s2, pn2, lev2, tl2. auto.
+  induction 1 as [pn pl lev tl|pn pl lev tl lev' tl' ty T rest cls Hre Hcls Htxt Hnt Hpn Hstep Hstop Hrest IH
+                 |pn pl lev tl lev' tl' ty ty0 body rest Hk Hre Hstep Hrest IH
+                 |pn pl lev tl body flags rest Hb Hne H42 Hf Hr0 Hr1 Hrest IH]; intros s Hinv Hsuf.
+  - exists s, pn, pl, lev, tl. cbn. auto.
+  - assert (Hsuf' : suffix (jcur s) = T ++ after rest).
+    { rewrite Hsuf. unfold after, texts. cbn [map concat item_text]. rewrite <- app_assoc. reflexivity. }
+    destruct (next_extend s pn pl lev tl lev' tl' ty T (after rest) cls Hre Hcls Htxt Hnt Hinv Hstep Hpn Hsuf'
+                (after_wfl rest) Hstop) as (s1 & Hn & Hinv1 & Hsuf1).
+    destruct (IH s1 Hinv1 Hsuf1) as (s2 & pn2 & pl2 & lev2 & tl2 & Hn2 & Hinv2 & Hsuf2).
+    exists s2, pn2, pl2, lev2, tl2. split; [|auto].
+    unfold ops_of, toks_of. cbn [map concat item_ops item_toks app jrun jstep]. rewrite Hn. cbn [rbind].
+    fold (ops_of rest). fold (toks_of rest). rewrite Hn2. reflexivity.
+  - assert (Hsuf' : suffix (jcur s) = (125 :: body) ++ after rest).
+    { rewrite Hsuf. unfold after, texts. cbn [map concat item_text]. rewrite <- app_assoc. reflexivity. }
+    destruct (next_cont s pn pl lev tl lev' tl' ty ty0 body (after rest) Hk Hre Hinv Hstep Hsuf'
+                (wfl_nonnil _ (after_wfl rest))) as (s1 & Hn & Hinv1 & Hsuf1).
+    destruct (IH s1 Hinv1 Hsuf1) as (s2 & pn2 & pl2 & lev2 & tl2 & Hn2 & Hinv2 & Hsuf2).
+    exists s2, pn2, pl2, lev2, tl2. split; [|auto].
+    unfold ops_of, toks_of. cbn [map concat item_ops item_toks app jrun jstep]. rewrite Hn. cbn [rbind].
+    fold (ops_of rest). fold (toks_of rest). rewrite Hn2. reflexivity.
+  - assert (Hsuf' : suffix (jcur s) = re_lit body flags ++ after rest).
+    { rewrite Hsuf. unfold after, texts. cbn [map concat item_text]. rewrite <- app_assoc. reflexivity. }
+    destruct (next_regex s pn pl lev tl body flags (after rest) Hb Hne H42 Hf Hr0 Hr1 (after_wfl rest) Hinv Hsuf')
+      as (s1 & s2 & Hn & Hre & Hinv2 & Hsuf2).
+    destruct (IH s2 Hinv2 Hsuf2) as (s3 & pn3 & pl3 & lev3 & tl3 & Hn3 & Hinv3 & Hsuf3).
+    exists s3, pn3, pl3, lev3, tl3. split; [|auto].
+    unfold ops_of, toks_of. cbn [map concat item_ops item_toks app jrun jstep]. rewrite Hn. cbn [rbind].
+    rewrite Hre. cbn [rbind].
+    fold (ops_of rest). fold (toks_of rest). rewrite Hn3. reflexivity.
 Qed.
 
-(* C06, classes proved so far: the lexer returns exactly the token sequence *)
-Lemma jslex_token_sequences_partial_proof ts : seq_ok false 0 [] ts ->
-  exists s', next_n id_start id_cont is_zs (length ts) (js_init (texts ts)) =
-               Ok (map (fun t => (fst t, Some (snd t))) ts, s') /\
+(* C06: the lexer, driven with Next (and RegExp after the '/' of a regular expression literal), returns
+   exactly the token sequence; the input starts a line (prevLineTerminator is initially true) *)
+Lemma jslex_token_sequences_partial_proof its : seq_ok false true 0 [] its ->
+  exists s', jrun id_start id_cont is_zs (ops_of its) (js_init (texts its)) = Ok (toks_of its, s') /\
     at_end (jcur s') = true /\ lstart (jcur s') = lpos (jcur s').
 Proof.
   intros H.
-  destruct (seq_run false 0 [] ts H (js_init (texts ts))) as (s' & pn' & lev' & tl' & Hn & (Hw & Hst & _) & Hsuf).
+  destruct (seq_run false true 0 [] its H (js_init (texts its))) as (s' & pn' & pl' & lev' & tl' & Hn & (Hw & Hst & _) & Hsuf).
   - unfold seq_inv. split; [apply js_init_wf|]. cbn. auto.
   - reflexivity.
   - exists s'. split; [assumption|]. split; [|assumption].
@@ -664,28 +799,48 @@ Qed.
 
 End SeqNext.
 
-(* non-vacuity: a 'x'/*c*/`t`>>>= LF if(0x1F_fn;1.5e+3//c CR LF `a${{x}}b${`n${1}`}c`;<!--h LF with no class for
-   non-ASCII runes: nested templates, a block inside a substitution, all literal kinds *)
-Example ex_seq_ok : seq_ok nocls nocls nocls false 0 []
-  [(IdentifierToken, [97]); (WhitespaceToken, [32]); (StringToken, [39; 120; 39]);
-   (CommentToken, [47; 42; 99; 42; 47]); (TemplateToken, [96; 116; 96]);
-   (GtGtGtEqToken, [62; 62; 62; 61]); (LineTerminatorToken, [10]); (2068, [105; 102]); (OpenParenToken, [40]);
-   (HexadecimalToken, [48; 120; 49; 70; 95; 102; 110]); (SemicolonToken, [59]);
-   (DecimalToken, [49; 46; 53; 101; 43; 51]); (CommentToken, [47; 47; 99]); (LineTerminatorToken, [13; 10]);
-   (TemplateStartToken, [96; 97; 36; 123]); (OpenBraceToken, [123]); (IdentifierToken, [120]); (CloseBraceToken, [125]);
-   (TemplateMiddleToken, [125; 98; 36; 123]); (TemplateStartToken, [96; 110; 36; 123]); (IntegerToken, [49]);
-   (TemplateEndToken, [125; 96]); (TemplateEndToken, [125; 99; 96]); (SemicolonToken, [59]);
-   (CommentToken, [60; 33; 45; 45; 104]); (LineTerminatorToken, [10])].
+(* non-vacuity, with no class for non-ASCII runes:
+     -->s LF a 'x'/*c*/`t`>>>= LF SP -->x U+2028 if(0x1F_fn;1.5e+3//c CR LF x=/[/]\/=/g;/=a/;
+     `a${{x}}b${`n${1}`}c`;<!--h LF //e
+   "-->" comments at the start of the input and after LF + whitespace, single-line comments ended by CR LF,
+   U+2028 and the end of input, a regular expression right after '=' with '/' in a class and escaped,
+   one whose body starts with '=' (Next returns '/='), nested templates, a block inside a substitution,
+   all literal kinds *)
+Example ex_seq_ok : seq_ok nocls nocls nocls false true 0 []
+  [ITok CommentToken [45; 45; 62; 115]; ITok LineTerminatorToken [10];
+   ITok IdentifierToken [97]; ITok WhitespaceToken [32]; ITok StringToken [39; 120; 39];
+   ITok CommentToken [47; 42; 99; 42; 47]; ITok TemplateToken [96; 116; 96];
+   ITok GtGtGtEqToken [62; 62; 62; 61]; ITok LineTerminatorToken [10]; ITok WhitespaceToken [32];
+   ITok CommentToken [45; 45; 62; 120]; ITok LineTerminatorToken [226; 128; 168];
+   ITok 2068 [105; 102]; ITok OpenParenToken [40];
+   ITok HexadecimalToken [48; 120; 49; 70; 95; 102; 110]; ITok SemicolonToken [59];
+   ITok DecimalToken [49; 46; 53; 101; 43; 51]; ITok CommentToken [47; 47; 99]; ITok LineTerminatorToken [13; 10];
+   ITok IdentifierToken [120]; ITok 1537 [61]; IRegex [91; 47; 93; 92; 47; 61] [103]; ITok SemicolonToken [59];
+   IRegex [61; 97] []; ITok SemicolonToken [59];
+   ITok TemplateStartToken [96; 97; 36; 123]; ITok OpenBraceToken [123]; ITok IdentifierToken [120]; ITok CloseBraceToken [125];
+   ITok TemplateMiddleToken [125; 98; 36; 123]; ITok TemplateStartToken [96; 110; 36; 123]; ITok IntegerToken [49];
+   ITok TemplateEndToken [125; 96]; ITok TemplateEndToken [125; 99; 96]; ITok SemicolonToken [59];
+   ITok CommentToken [60; 33; 45; 45; 104]; ITok LineTerminatorToken [10]; ITok CommentToken [47; 47; 101]].
 Proof.
-  Ltac ex_side := cbn [text_ok stop_for follower texts map concat snd app hd is_num punct1]; unfold op_stop;
+  Ltac ex_side := cbn [text_ok stop_for after texts map concat item_text re_lit app hd is_num punct1 plt_after];
+    unfold op_stop, lc_stop;
     repeat split; try lia; try reflexivity; try discriminate; try (intros; discriminate);
-    try (left; reflexivity); try (right; reflexivity); try (right; left; reflexivity); try (right; right; reflexivity).
+    try (left; reflexivity); try (right; reflexivity); try (right; left; reflexivity);
+    try (right; right; left; reflexivity); try (right; right; reflexivity); try (right; right; right; split; reflexivity).
   Ltac ex_tok := eapply sq_cons;
     [unfold relexes; vm_compute; eexists; split; [reflexivity|split; reflexivity]
-    | reflexivity | ex_side | reflexivity | ex_side | reflexivity | ex_side | ].
+    | reflexivity | ex_side | reflexivity | ex_side | reflexivity | ex_side | cbn [is_num plt_after]; vm_compute plt_after ].
   Ltac ex_cont t0 := eapply sq_cont with (ty0 := t0);
     [ first [left; split; reflexivity | right; split; reflexivity]
     | unfold relexes; vm_compute; eexists; split; [reflexivity|split; reflexivity]
     | reflexivity | ].
-  do 18 ex_tok. ex_cont TemplateStartToken. do 2 ex_tok. ex_cont TemplateToken. ex_cont TemplateToken. do 3 ex_tok. apply sq_nil.
+  Ltac ex_plain := apply rb_plain; [lia|lia|lia|lia|lia|first [intros _; lia | intros Hx; discriminate Hx]|reflexivity|].
+  Ltac ex_regex := eapply sq_regex;
+    [ | discriminate | cbn [hd]; lia | repeat constructor | reflexivity | cbn; lia | ].
+  do 21 ex_tok.
+  ex_regex. { apply rb_open. ex_plain. apply rb_close. apply rb_esc; [lia|lia|reflexivity|]. ex_plain. apply rb_nil. }
+  ex_tok.
+  ex_regex. { ex_plain. ex_plain. apply rb_nil. }
+  do 2 ex_tok. do 3 ex_tok.
+  ex_cont TemplateStartToken. do 2 ex_tok. ex_cont TemplateToken. ex_cont TemplateToken. do 4 ex_tok. apply sq_nil.
 Qed.
